@@ -297,8 +297,8 @@ func (d *Decoder) decodeRawVal(highThreeBits, lowFiveBits byte, additional []byt
 			return nil, err
 		}
 
-		b := make([]byte, length)
-		if _, err := io.ReadFull(d.r, b); err != nil {
+		b, err := readBytes(d.r, length)
+		if err != nil {
 			return nil, err
 		}
 		return append(head, b...), nil
@@ -330,6 +330,24 @@ func (d *Decoder) decodeRawVal(highThreeBits, lowFiveBits byte, additional []byt
 	}
 
 	panic("unreachable")
+}
+
+// readBytes reads exactly n bytes from r. The buffer grows with the data that
+// actually arrives, so a length that the input merely claims cannot force a
+// large allocation.
+func readBytes(r io.Reader, n int) ([]byte, error) {
+	const chunk = 1024
+	b := make([]byte, 0, min(n, chunk))
+	for len(b) < n {
+		m := min(n-len(b), chunk)
+		b = slices.Grow(b, m)
+		k, err := io.ReadFull(r, b[len(b):len(b)+m])
+		b = b[:len(b)+k]
+		if err != nil {
+			return nil, err
+		}
+	}
+	return b, nil
 }
 
 func decodeLen(highThreeBits, lowFiveBits byte, additional []byte) (int, error) {
@@ -574,8 +592,8 @@ func (d *Decoder) decodeByteSlice(rv reflect.Value, additional []byte) error {
 	if length > math.MaxInt || length >= MaxArrayDecodeLength {
 		return fmt.Errorf("byte array exceeds max size: %d", length)
 	}
-	bs := make([]byte, length)
-	if _, err := io.ReadFull(d.r, bs); err != nil {
+	bs, err := readBytes(d.r, int(length))
+	if err != nil {
 		return fmt.Errorf("error reading byte/text string: %w", err)
 	}
 
@@ -754,11 +772,13 @@ func (d *Decoder) decodeArrayToSlice(rv reflect.Value, additional []byte) error 
 		return fmt.Errorf("array exceeds max size: %d", length)
 	}
 	slice := rv
+	grow := false
 	switch slice.Kind() {
 	case reflect.Slice:
-		// Set slice to the correct length
-		slice.Grow(int(length))
-		slice.SetLen(int(length))
+		// Items are appended as they are decoded, so that the slice grows
+		// with the data and not with the length the input claims
+		slice.SetLen(0)
+		grow = true
 
 	case reflect.Array:
 		// Check array is long enough and clear extra elements
@@ -771,8 +791,11 @@ func (d *Decoder) decodeArrayToSlice(rv reflect.Value, additional []byte) error 
 		}
 
 	case reflect.Interface:
-		slice.Set(reflect.MakeSlice(slice.Elem().Type(), int(length), int(length)))
-		slice = slice.Elem()
+		// The interface's slice is not addressable: build a new one and set
+		// it when all items are decoded
+		slice = reflect.New(slice.Elem().Type()).Elem()
+		slice.Set(reflect.MakeSlice(slice.Type(), 0, 0))
+		grow = true
 
 	default:
 		return fmt.Errorf("%w: expected a slice type",
@@ -786,7 +809,14 @@ func (d *Decoder) decodeArrayToSlice(rv reflect.Value, additional []byte) error 
 		if err := d.Decode(newVal.Interface()); err != nil {
 			return fmt.Errorf("error decoding array item %d: %w", i, err)
 		}
-		slice.Index(i).Set(newVal.Elem())
+		if grow {
+			slice.Set(reflect.Append(slice, newVal.Elem()))
+		} else {
+			slice.Index(i).Set(newVal.Elem())
+		}
+	}
+	if rv.Kind() == reflect.Interface {
+		rv.Set(slice)
 	}
 
 	return nil
